@@ -32,7 +32,7 @@ var keyBytes = map[string]string{
 	"del": "\x1b[3~", "pgup": "\x1b[5~", "pgdn": "\x1b[6~", "insert": "\x1b[2~",
 	"f1": "\x1bOP", "f2": "\x1bOQ", "f3": "\x1bOR", "f4": "\x1bOS", "f5": "\x1b[15~", "f6": "\x1b[17~",
 	"f7": "\x1b[18~", "f8": "\x1b[19~", "f9": "\x1b[20~", "f10": "\x1b[21~", "f11": "\x1b[23~", "f12": "\x1b[24~",
-	"alt-bspace": "\x1b\x7f",
+	"alt-bspace": "\x1b\x7f", "shift-left": "\x1b[1;2D", "shift-right": "\x1b[1;2C",
 }
 
 func init() {
@@ -569,7 +569,7 @@ func (r *sysRun) user() {
 			<-r.resume
 			r.userWait = false
 			if os.Getenv("VERIF_TRACK_CURSOR") != "" && r.t != nil {
-				r.sim.Logf("  at rest: cy=%d offset=%d track=%v previewer.version=%d", r.t.cy, r.t.offset, r.t.track, r.t.previewer.version)
+				r.sim.Logf("  at rest: cy=%d offset=%d track=%v previewer.version=%d query=%q cx=%d xoffset=%d", r.t.cy, r.t.offset, r.t.track, r.t.previewer.version, string(r.t.input), r.t.cx, r.t.xoffset)
 			}
 		default:
 			if h := sysEventHandlers[ev.Kind]; h != nil {
